@@ -9,6 +9,7 @@ CONSTANTS
   MaxRuns = 1
   MaxTagOps = 2
   MaxTimes = 0
+  MaxIds = 9
   AllowStop = FALSE
   AllowSetFF = FALSE
   AllowSkipNoStart = TRUE
